@@ -293,10 +293,26 @@ def prepare(entry, ctx):
             f = entry.target
             return f'{entry.name}{sorted(kw.items())}', (lambda: f(*args, **kw)), args, None
         recv = make_receiver(entry.mod, ctx)
-        return f'{entry.name}{sorted(kw.items())}', None, args, (recv, entry.target, kw)
+        label = f'{entry.name}{sorted(kw.items())}'
+        extra = []
+        if entry.name == 'QuaternionArray.average':
+            # optional array arguments of the one method that has them: caller-owned too
+            n = int(recv.num_qts)
+            if r.random() < 0.6:
+                kw['weights'] = np.array([r.uniform(0.2, 3.0) for _ in range(n)])
+                extra.append(kw['weights'])
+                label += '[weights]'
+            if r.random() < 0.4 and n >= 2:
+                lo = r.randrange(0, n - 1)
+                kw['span'] = (lo, r.randrange(lo + 1, n + 1))
+                if 'weights' in kw:
+                    kw['weights'] = kw['weights'][:kw['span'][1] - kw['span'][0]].copy()
+                    extra[-1] = kw['weights']
+                label += '[span]'
+        return label, None, args + extra, (recv, entry.target, kw, len(args))
     if entry.kind == 'property':
         recv = make_receiver(entry.mod, ctx)
-        return entry.name, None, [], (recv, entry.target, None)
+        return entry.name, None, [], (recv, entry.target, None, 0)
     if entry.kind == 'ctor':
         route, short = entry.target, entry.mod
         cls = getattr(ahrs, short)
